@@ -447,9 +447,13 @@ func runStreams(prop, tier string, seed int64, streams []Stream, budget int, cor
 		for _, o := range impl[i] {
 			st.Outcomes[outcomeClass(o)]++
 		}
-		if sampled[s.Stream] < 2 && len(s.Lines) <= 12 {
+		if sampled[s.Stream] < 2 {
 			sampled[s.Stream]++
-			res.Samples = append(res.Samples, map[string]any{"stream": s.Stream, "class": s.Class, "lines": clip(s.Lines), "impl": clip(impl[i]), "model": clip(model[i])})
+			n := len(s.Lines)
+			if n > 12 {
+				n = 12 // the first lines of a long script
+			}
+			res.Samples = append(res.Samples, map[string]any{"stream": s.Stream, "class": s.Class, "script_lines": len(s.Lines), "lines": clip(s.Lines[:n]), "impl": clip(impl[i][:n]), "model": clip(model[i][:n])})
 		}
 		if kind := classify(impl[i], model[i]); kind != "" {
 			// scripts that drive real goroutines can depend on timing: a failure that does not
